@@ -58,12 +58,15 @@ def _bytes(frame) -> bytes:
 
 
 # ----------------------------------------------------------- step workloads
-def w_serialize(api: str, cls: str, seq, shared_key=None, stream_name: str = ""):
+def w_serialize(api: str, cls: str, seq, shared_key=None, stream_name: str = "",
+                delimited: bool = True):
     """Statement-level serializer workload; a generator whose yields are step boundaries."""
 
     def gen(shared: dict):
         if shared_key:
             opts = shared.setdefault(shared_key, _opts(cls))
+        elif not delimited:
+            opts = DR.make_options(cls, PRESET, 250, False, 0, generalized=False, rdf_star=False)
         else:
             opts = _opts(cls, stream_name)
         stream = DR.g_stream(cls, opts) if api == "generic" else DR.r_stream(cls, opts)
@@ -177,6 +180,9 @@ def step_workloads() -> dict:
         "parse-rdflib-noncanonical-2": w_parse("rdflib", "flat", fixed_stream("triple", NC3B)),
         "ser-shared-opts-1": w_serialize("generic", "triple", S3, "shared"),
         "ser-shared-opts-2": w_serialize("generic", "triple", S3B, "shared"),
+        # two non-delimited streams (one frame at the very end each)
+        "ser-generic-nondelimited-a": w_serialize("generic", "triple", S3, delimited=False),
+        "ser-rdflib-nondelimited-b": w_serialize("rdflib", "triple", S3B, delimited=False),
         # GraphStream fed from quad generators through stream_frames(), several frames each
         "frames-rdflib-graph-a": w_stream_frames("rdflib", "graph", S4, 6),
         "frames-rdflib-graph-b": w_stream_frames("rdflib", "graph", S4B + S4[:1], 6),
@@ -526,6 +532,17 @@ def _probe_thunks():
             return hashlib.sha256(data).hexdigest()
         return thunk
 
+    def default_flat(api, cls, seq):
+        def thunk():
+            # options left to the entry point (it looks at the first statement)
+            data = (DR.g_write if api == "generic" else DR.r_write)(seq, cls, _opts(cls),
+                                                                   "flat_to_file_default")
+            return hashlib.sha256(data).hexdigest()
+        return thunk
+
+    for api in ("generic", "rdflib"):
+        yield f"{api}-flat-default-quads", default_flat(api, "quad", S4)
+        yield f"{api}-flat-default-triples", default_flat(api, "triple", S3)
     for api in ("generic", "rdflib"):
         yield f"{api}-langtags", langtags(api)
     for cls in ("triple", "quad"):
@@ -660,6 +677,16 @@ def history_actions() -> dict:
                                                              "flat_to_file")
         return act
 
+    def rejected_flat():
+        """flat_stream_to_frames() asked for FLAT_QUADS but fed triples: refused."""
+        from pyjelly.integrations.generic import serialize as gser  # noqa: PLC0415
+
+        opts = DR.make_options("quad", PRESET, 250, True, 2, generalized=False, rdf_star=False)
+        try:
+            list(gser.flat_stream_to_frames((T.st_to_generic(s) for s in S3), opts))
+        except Exception:  # noqa: BLE001
+            pass
+
     def subtype_stream():
         """A stream with a logical sub-type is merely constructed."""
         for cls, lt in (("triple", 13), ("quad", 114), ("quad", 14)):
@@ -668,6 +695,7 @@ def history_actions() -> dict:
 
     return {
         "subtype-stream": subtype_stream,
+        "rejected-flat-generic": rejected_flat,
         "langcase-generic": langcase("generic"),
         "langcase-rdflib": langcase("rdflib"),
         "ns-grouped-generic": ns_grouped("generic"),
